@@ -36,6 +36,14 @@ CLAIMED = {
                 text="TLC checks C19_Cap/C19_ShardCap/C19_Exclusive and the pmath operator table over all Get/Put/Put-foreign histories up to the bound for the default "
                      "and several small custom pools; state-graph edge covers and random histories run on the real pools with buffers tagged by identity and are "
                      "validated against the spec; pmath and pool parameters are compared value by value with the model for 0..2^17+2 and around every power of two."),
+    "C03": dict(engine="pipeline", design="3/C03", technique="TLA+ reference model Pipeline.tla; TLC trace validation of operation programs executed on the real pipeline (graph edge cover + random programs)",
+                text="Pipeline.tla models the handler list, the position rules of AddFirst/AddLast/AddHandler, the queries and both traversal directions; TLC checks the "
+                     "reference's own consistency and then validates, step by step, recorded executions of building/query/fire programs on a real pipeline+channel: "
+                     "every edge of the small-palette state graph and random programs over 12 handler types (all interface subsets used by the framework, repeated instances)."),
+    "C07": dict(engine="pipeline+channel", design="3/C07", technique="TLA+ reference model of recover scopes (Pipeline.tla) + Channel.tla fault actions; TLC trace validation and model checking",
+                text="Panic injection at every handler position x event kind x entry point (Channel.Write/Trigger, ctx.Write/Trigger, read-loop scope) x panic value kind x "
+                     "forwarding/swallowing exception handlers is executed on the real pipeline and validated by TLC against Pipeline.tla (exception delivery order, once, "
+                     "close-or-not, no escape); transport write/flush/read failures are fault actions of Channel.tla (model checked incl. liveness, replayed with faults)."),
 }
 NA = {}
 for p in props:
@@ -65,6 +73,8 @@ engines = {}
 for pid, c in CLAIMED.items():
     engines.setdefault(c["engine"], []).append(pid)
 ENG = {
+    "pipeline": ("spec/Pipeline.tla + spec/TracePipeline.tla + harness/cmd/driver/pipe.go", "TLA+ reference model of the handler pipeline; TLC trace validation of programs run on the real pipeline"),
+    "pipeline+channel": ("spec/Pipeline.tla + spec/Channel.tla + harness/cmd/driver/{pipe,chan}.go", "recover scopes as reference model + transport fault actions"),
     "pool": ("spec/Pool.tla + spec/TracePool.tla + harness/cmd/driver/pool.go", "TLA+ spec of the size-class pool; TLC exhaustive histories; replay + trace validation on the real pools"),
     "channel": ("spec/Channel.tla + spec/TraceChannel.tla + harness/cmd/driver/chan.go", "TLA+ spec of writer/sender/closer/reader protocol; TLC exhaustive checking; state-graph edge-cover replay through a gate scheduler; TLC trace validation of recorded executions"),
 }
